@@ -46,6 +46,7 @@ func main() {
 	run.Floor("get_404_known_id_nothing_stored", 500)
 	run.Floor("get_unknown_or_odd", 2000)
 	run.Floor("loglist_checks", 5000)
+	run.Floor("requests_with_storage_fault", 100)
 	run.Floor("refused_first_submission_then_list", 300)
 	dir := run.Scratch()
 	run.Units("hist", run.Pick(800, 20000), 0, func(unit int64, r *rand.Rand) {
@@ -54,12 +55,20 @@ func main() {
 		accepted := map[string]bool{}
 		lastRet := map[string][]byte{} // what the last accepted update of each log returned
 		o := wit.HistOpts{Gen: gen.Opts{NLogs: 1 + r.IntN(4), MaxSize: 30, Branches: 2, ShareKeys: true}, MinSteps: 8, MaxSteps: 30, Dir: dir}
+		if unit%3 == 2 {
+			// storage faults up to the SQL driver (failing COMMIT, Close, row fetch...): what an update that
+			// reported success returned must still be what is served
+			o.FaultProb, o.DriverFaults = 0.06, true
+		}
 		h, err := wit.RunHistory(r, o, func(h *wit.Hist, s *wit.Step, i int) {
 			if router == nil {
 				router = mux.NewRouter()
 				ihttp.NewServer(h.Rn.W).RegisterHandlers(router)
 				base, _ := url.Parse("http://witness.invalid/")
 				client = whttp.NewWitness(base, &http.Client{Transport: inmem{router}})
+			}
+			if h.FaultFired != "" {
+				run.Count("requests_with_storage_fault")
 			}
 			if s.Err == nil {
 				accepted[s.Req.LogID] = true
